@@ -149,8 +149,8 @@ impl Rig {
 
 pub fn bounds(tier: Tier) -> Value {
     match tier {
-        Tier::Quick => json!({"template_pieces": 3, "value_len": 2, "value_alphabet": 15, "w_values": 8, "positions": 3}),
-        Tier::Thorough => json!({"template_pieces": 3, "value_len": 4, "value_alphabet": 15, "w_values": 8, "positions": 3}),
+        Tier::Quick => json!({"template_pieces": 3, "value_len": 2, "value_alphabet": 15, "w_values": 8, "positions": 5}),
+        Tier::Thorough => json!({"template_pieces": 3, "value_len": 4, "value_alphabet": 15, "w_values": 8, "positions": 5}),
     }
 }
 
@@ -186,7 +186,7 @@ fn build(t: &Tpl, pos: u8, env: &HashMap<String, String>) -> (Vec<String>, Optio
             v.push("z".into());
             v
         })),
-        _ => {
+        2 => {
             let pre = expected_spread("w", env);
             let exp = match (pre, e) {
                 (Some(mut p), Some(v)) => {
@@ -197,6 +197,33 @@ fn build(t: &Tpl, pos: u8, env: &HashMap<String, String>) -> (Vec<String>, Optio
                 _ => None,
             };
             (vec!["%{w}".into(), "z".into(), w], exp)
+        }
+        3 => {
+            // directly behind a spread (which may yield nothing at all)
+            let pre = expected_spread("w", env);
+            let exp = match (pre, e) {
+                (Some(mut p), Some(v)) => {
+                    p.extend(v);
+                    Some(p)
+                }
+                _ => None,
+            };
+            (vec!["%{w}".into(), w], exp)
+        }
+        _ => {
+            // on both sides of a spread, and behind a spread of an undefined variable
+            let pre = expected_spread("w", env);
+            let exp = match (pre, e) {
+                (Some(p), Some(v)) => {
+                    let mut all = v.clone();
+                    all.extend(p);
+                    all.extend(v.clone());
+                    all.extend(v);
+                    Some(all)
+                }
+                _ => None,
+            };
+            (vec![w.clone(), "%{w}".into(), w.clone(), "%{undefined::spread}".into(), w], exp)
         }
     }
 }
@@ -523,8 +550,8 @@ pub fn worker(w: &mut Worker) {
     }
 
     for t in &templates {
-        for pos in 0..3u8 {
-            let needs_w = uses(t, "w") || pos == 2;
+        for pos in 0..5u8 {
+            let needs_w = uses(t, "w") || pos >= 2;
             let needs_v = uses(t, "v");
             for (vi, v) in vvalues.iter().enumerate() {
                 if !needs_v && vi > 0 {
@@ -576,7 +603,7 @@ pub fn worker(w: &mut Worker) {
 
     // the empty environment: no variable at all is defined (binding is not the identity then either)
     for t in &templates {
-        for pos in 0..3u8 {
+        for pos in 0..5u8 {
             if !w.take() {
                 continue;
             }
@@ -616,7 +643,7 @@ pub fn worker(w: &mut Worker) {
                 continue;
             }
         }
-        for pos in 0..3u8 {
+        for pos in 0..5u8 {
             for v in &small {
                 for quote in [false, true] {
                     if !w.take() {
@@ -702,7 +729,7 @@ pub fn crash_sig(_case: &Value, kind: &str) -> String {
     kind.to_string()
 }
 
-pub const RULE: &str = "every template of 1..3 pieces from {a, 'b c', e-acute, ${v}, ${w}, ${u} (undefined), ${a.b}, ${s::e1} (name with '::', a digit and a non-ASCII letter), \\${v}} and the whole-argument forms %{v} %{w} %{u}, in three argument positions (alone, first of two, last of three after a spread), x every value of v (undefined, every string up to the length bound over {a SP \" \\ # $ { } % LF = e-acute TAB CR NBSP}, 9 special values such as '${w}' and '  ') x 8 values of w (only where the argument list mentions them); bound by runner::run_instruction and observed by a capture command; every template also under the empty environment (no variable defined at all); a second family writes the same templates as script text (plain and quoted) and runs them through run_script. Oracle: one-pass reference substitution; spread = space-separated non-empty words. Non-trivial: the argument list mentions v or w. states = distinct (received count, position, kind) classes; transitions = real bindings. Scale cases: a value of 300/70000 (thorough 1000003) characters made of ${v}, %{w}, backslash, '#' and quote text bound alone, embedded and as an array item (must arrive whole and uninterpreted); 300/3000 (thorough 30000) words spread by %{..} and as many arguments written out on one line. Re-binding family: the templates %{w} ${w} bound twice in one run with the variable changed in between by a command writing the variable table directly, by an assignment, by set_by_name, as a for/in loop variable, as a function argument, or removed (6 x 6 values): each binding shows the value of its moment. Many templates: 3..40 (thorough ..130) different written arguments (long and short, quoted, with one or two references or none) bound over and over in one run, in growing windows (each window twice) and backwards alternating with the first, the three variables changed every 29 bindings: every binding is that of the argument written there with the values of that moment. Punctuation values: every ASCII punctuation character and the low-byte look-alikes of blank, quote, #, backslash, $, %, braces and apostrophe, leading / trailing / wrapping the words of the value (6 shapes each) through every template: a value is data, a spread splits it at blanks only Odd names: every character of the wide alphabet that a name may hold (all but white space, = and }) inside, in front of and behind a name, and the two-character sequences ${ %{ $$ {{ \\$ \\% inside names, through five templates (alone, embedded, next to another reference on either side, as a spread): the name runs to the first } and is looked up as it stands. Every odd name is also bound while it is NOT defined (its parts being names of defined variables): nothing; the names include 30 operators other languages allow inside a reference (:- := :+ # ## % %% / // :1 [0] [@] ^ ^^ , ,, @Q ...)";
+pub const RULE: &str = "every template of 1..3 pieces from {a, 'b c', e-acute, ${v}, ${w}, ${u} (undefined), ${a.b}, ${s::e1} (name with '::', a digit and a non-ASCII letter), \\${v}} and the whole-argument forms %{v} %{w} %{u}, in five argument positions (alone, first of two, last of three after a spread, directly behind a spread, on both sides of a spread and behind a spread of an undefined variable), x every value of v (undefined, every string up to the length bound over {a SP \" \\ # $ { } % LF = e-acute TAB CR NBSP}, 9 special values such as '${w}' and '  ') x 8 values of w (only where the argument list mentions them); bound by runner::run_instruction and observed by a capture command; every template also under the empty environment (no variable defined at all); a second family writes the same templates as script text (plain and quoted) and runs them through run_script. Oracle: one-pass reference substitution; spread = space-separated non-empty words. Non-trivial: the argument list mentions v or w. states = distinct (received count, position, kind) classes; transitions = real bindings. Scale cases: a value of 300/70000 (thorough 1000003) characters made of ${v}, %{w}, backslash, '#' and quote text bound alone, embedded and as an array item (must arrive whole and uninterpreted); 300/3000 (thorough 30000) words spread by %{..} and as many arguments written out on one line. Re-binding family: the templates %{w} ${w} bound twice in one run with the variable changed in between by a command writing the variable table directly, by an assignment, by set_by_name, as a for/in loop variable, as a function argument, or removed (6 x 6 values): each binding shows the value of its moment. Many templates: 3..40 (thorough ..130) different written arguments (long and short, quoted, with one or two references or none) bound over and over in one run, in growing windows (each window twice) and backwards alternating with the first, the three variables changed every 29 bindings: every binding is that of the argument written there with the values of that moment. Punctuation values: every ASCII punctuation character and the low-byte look-alikes of blank, quote, #, backslash, $, %, braces and apostrophe, leading / trailing / wrapping the words of the value (6 shapes each) through every template: a value is data, a spread splits it at blanks only Odd names: every character of the wide alphabet that a name may hold (all but white space, = and }) inside, in front of and behind a name, and the two-character sequences ${ %{ $$ {{ \\$ \\% inside names, through five templates (alone, embedded, next to another reference on either side, as a spread): the name runs to the first } and is looked up as it stands. Every odd name is also bound while it is NOT defined (its parts being names of defined variables): nothing; the names include 30 operators other languages allow inside a reference (:- := :+ # ## % %% / // :1 [0] [@] ^ ^^ , ,, @Q ...)";
 pub const ASSUMPTIONS: &[&str] = &["spread values containing a double quote or '#' are only checked for 'no panic' (their grouping is pinned by the repository's own tests, not by the statement)", "arguments that mix text with %{..} are outside the property's template domain"];
 pub const EXHAUSTIVE: bool = true;
 pub const WALL_CAP_S: (u64, u64) = (50, 1500);
